@@ -80,9 +80,42 @@ def eval_bool(e, oracle, env):
             return v
         return eval_bool(v, oracle, env)
     r = oracle(norm(e), e)
+    if r is None and env:
+        # locals that were bound to a non-boolean expression earlier on this path are inlined, so that
+        # `x = a.b[c]; if x == K:` is decided like `if a.b[c] == K:`
+        e2 = _inline_env(e, env)
+        if e2 is not None:
+            r = oracle(norm(e2), e2)
     if r is None:
         raise Unknown(f"oracle has no value for atom `{norm(e)}`")
     return r
+
+
+class _EnvInliner(ast.NodeTransformer):
+    def __init__(self, env):
+        self.env = env
+        self.changed = False
+
+    def visit_Name(self, node):
+        v = self.env.get(node.id)
+        if isinstance(node.ctx, ast.Load) and isinstance(v, str):
+            try:
+                new = ast.parse(v, mode="eval").body
+            except SyntaxError:
+                return node
+            self.changed = True
+            return new
+        return node
+
+
+def _inline_env(e, env):
+    try:
+        clone = ast.parse(ast.unparse(e), mode="eval").body
+    except SyntaxError:
+        return None
+    t = _EnvInliner(env)
+    out = t.visit(clone)
+    return ast.fix_missing_locations(out) if t.changed else None
 
 
 def run(fnode, oracle, max_steps=2000):
